@@ -3,6 +3,7 @@
 import urllib.parse
 
 from sdc11073.mdib.providermdibprotocol import ProviderMdibProtocol
+from sdc11073.xml_types.pm_types import IMPLIED_CODING_SYSTEM
 from sdc11073.xml_types.wsd_types import ScopesType
 
 # from IEEE Std 11073-20701-2018 chapter 9.3 SDC PARTICIPANT KEY PURPOSE based discovery
@@ -94,7 +95,10 @@ def _get_device_component_based_scopes(mdib: ProviderMdibProtocol) -> set[str]:
                 msg = (f'MdsDescriptor with the Handle "{entity.handle}" has a zero-length pm:Type/@Code specified - '
                        f'see IEEE Std 11073-20701-2018 chapter 9.2.')
                 raise ValueError(msg)
-            cs = urllib.parse.quote(entity.descriptor.Type.CodingSystem or '', safe='')
+            coding_system = entity.descriptor.Type.CodingSystem or ''
+            if coding_system == IMPLIED_CODING_SYSTEM:
+                coding_system = ''  # the implied coding system is not spelled out (same scope as before for an absent attribute)
+            cs = urllib.parse.quote(coding_system, safe='')
             csv = urllib.parse.quote(entity.descriptor.Type.CodingSystemVersion or '', safe='')
             co = urllib.parse.quote(entity.descriptor.Type.Code, safe='')
             scope_string = f'sdc.cdc.type:/{cs}/{csv}/{co}'
